@@ -25,7 +25,8 @@ RULE = ("find_vertices(k, f) for f in {LocalBioFilter grid, documented user filt
         "position-dependent, GC window from the documentation, parity, accept-all/none/one} x signature styles x result types, "
         "k = 1..6: mask[i] == bool(f(kmer_i)) for all i, ValueError iff none accepted, no other exception. "
         "connect_valid_graph(k, mask): entry [u][j] == succ_j(u) iff mask[u] and mask[succ_j(u)], else -1; ValueError iff the "
-        "mask is empty. Non-trivial: the filter (mask) accepts some but not all vertices; distinct = hash of the case.")
+        "mask is empty. Non-trivial: the filter (mask) accepts some but not all vertices; distinct = hash of the case."
+        ' Also: filters accepting exactly 1, 2, 3, 5 k-mers at every order 1..6, user filters that subclass LocalBioFilter with a strand-asymmetric extra rule, one filter object tightened in place between calls, an unrelated coding-graph call on another mask just before connect_valid_graph, and calls repeated after their result was scrambled.')
 
 
 def setup(ctx):
